@@ -46,10 +46,18 @@ contract(G_, 'Merger.write_spike_clusters', props=['C11'], params={},
               ('order-reaches-every-spike', 'all(any(self.spike_order[i] == rpsum(%s, p) + j for i in range(%s)) for p in range(len(%s)) for j in range(len(%s[p])))' % (_SC, _N, _SC, _SC))],
     locals={'cluster_probes_l': 'rag[int]', 'spike_clusters_l': 'rag[int]', 'spike_templates_l': 'rag[int]'},
     cuts=[('for i, (subdir, sc, st) in enumerate(', 'all-shifted-ids-below-the-total', 'all(0 <= spike_clusters_l[p][i] and spike_clusters_l[p][i] < coffset for p in range(len(spike_clusters_l)) for i in range(len(spike_clusters_l[p])))'),
-          ('cluster_probes = _concat', 'probe-table-size', 'len(cluster_probes) == coffset')],
-    # the code's own consistency assert needs "the largest merged id is attained", i.e. that the spike order reaches every spike: not proved (no trigger for a
-    # bare position variable), assumed here and exercised by the bounded stand-in
-    assume_asserts=['np.max(spike_clusters) + 1 == cluster_probes.size'],
+          ('cluster_probes = _concat', 'probe-table-size', 'len(cluster_probes) == coffset'),
+          ('spike_clusters = _load_multiple_spike_arrays', 'the-largest-shifted-id-is-in-the-last-probe', 'any(spike_clusters_l[len(spike_clusters_l) - 1][i] == coffset - 1 for i in range(len(spike_clusters_l[len(spike_clusters_l) - 1])))'),
+          ('spike_clusters = _load_multiple_spike_arrays', 'merged-ids-below-the-total', 'all(spike_clusters[i] < coffset for i in range(len(spike_clusters)))'),
+          ('spike_clusters = _load_multiple_spike_arrays', 'the-largest-merged-id-is-attained', 'any(spike_clusters[i] == coffset - 1 for i in range(len(spike_clusters)))')],
+    using={'the-largest-shifted-id-is-in-the-last-probe': ['largest-id-so-far-is-attained', 'done-probes-shifted', 'counts', 'lengths-kept', 'one-file-per-probe'],
+           'merged-ids-below-the-total': ['all-shifted-ids-below-the-total', '_load_multiple_spike_arrays.same-length',
+                                          '_load_multiple_spike_arrays.every-output-comes-from-some-probe-block', '_load_multiple_spike_arrays.element-of-the-probe-block-it-came-from', 'theory:rpsum'],
+           'the-largest-merged-id-is-attained': ['the-largest-shifted-id-is-in-the-last-probe', 'order-reaches-every-spike', 'lengths-kept', 'counts', 'one-file-per-probe', 'order-indexes-the-concatenation',
+                                                 '_load_multiple_spike_arrays.same-length', '_load_multiple_spike_arrays.element-of-the-probe-block-it-came-from'],
+           'code-assert': ['merged-ids-below-the-total', 'the-largest-merged-id-is-attained', 'probe-table-size', 'theory:np.max']},
+    # the code's own consistency assert (np.max(spike_clusters) + 1 == cluster_probes.size) is proved, not assumed: it needs "the largest merged id is attained",
+    # i.e. that the spike order reaches every spike (requires order-reaches-every-spike: spike_order is onto, which _load_multiple_spike_times ensures)
     loops={0: {'idx': 'k', 'invariant': [
         ('counts', '0 <= k and k <= len(%s) and len(self.cluster_offsets) == k and len(self.template_offsets) == k and len(cluster_probes_l) == k and coffset >= 0 and toffset >= 0' % _SC),
         ('lengths-kept', 'same_lengths(spike_clusters_l, %s) and same_lengths(spike_templates_l, %s)' % (_SC, _ST)),
